@@ -27,6 +27,7 @@ PROPERTY = "C09"
 FUNCTIONS = ["DefaultApplicationConfig.configure/create_io/resolve_help_command/print_version", "ConsoleApplication.run/resolve_command", "ArgvArgs.has_option_token", "HelpTextHandler.handle", "HelpResolver",
              "NameVersion.render", "Output._may_write (through the handler's writes)", "Question.ask (non-interactive)"]
 PART = {}
+EXTRA_BOUNDS = "also: handler writing flagged raw lines; two validated questions under -n; a nested sub-command named help; the command's own option before the switches; no_ansi_tty: streams that support ANSI themselves x {none, --ansi, --no-ansi} x 4 verbosities with a handler that draws a progress indicator, a progress bar and overwritten sections."
 BOUNDS = {"quick": "3 commands (one nested) x quiet x {none,-v,-vv,-vvv} x {none,--ansi,--no-ansi} x no-interaction x {none, help, version} x long/short spelling x insertion position among the tokens after the command path x handler raises or not; the same switches after '--'",
           "thorough": "same plus two switches at different positions"}
 OUTSIDE = ["switches placed BEFORE the command name (the statement only requires help/version after the command path; a switch in front changes which tokens are leading)", "several verbosity switches or both --ansi and --no-ansi on one line",
